@@ -98,6 +98,13 @@ def driver_model(g, cl):
         if isinstance(n, ast.Assign) and isinstance(n.value, ast.Call) and ast.unparse(n.value.func) == "re.compile" and n.value.args \
                 and isinstance(n.value.args[0], ast.Constant) and isinstance(n.targets[0], ast.Name):
             pats[n.targets[0].id] = (n.value.args[0].value, n)
+    # ... or compiled once as a constant of the class / module (cls.X, self.X, X)
+    scope = (list(g.cls.node.body) if getattr(g, "cls", None) is not None else []) + list(g.module.tree.body)
+    for n in scope:
+        if isinstance(n, ast.Assign) and isinstance(n.value, ast.Call) and ast.unparse(n.value.func) == "re.compile" and n.value.args \
+                and isinstance(n.value.args[0], ast.Constant) and isinstance(n.targets[0], ast.Name):
+            for spelling in (n.targets[0].id, f"cls.{n.targets[0].id}", f"self.{n.targets[0].id}") + ((f"{g.cls.name}.{n.targets[0].id}",) if getattr(g, "cls", None) is not None else ()):
+                pats.setdefault(spelling, (n.value.args[0].value, n))
     recognisers = []
     for c in ast.walk(g.node):
         if not (isinstance(c, ast.Call) and isinstance(c.func, ast.Attribute)):
